@@ -1,5 +1,9 @@
 HOOK_COMMITS = ["d4c9662", "221713e"]
 
+_SRV = ("Tied to the code by the S-world: the real serveTunnel with scripted handlers against a raw client in a synctest bubble, one stimulus per "
+        "quiescence, every observation line (frames emitted, call results, events, table, lastSeen) compared with the model in this property's view; "
+        "the property's monitor is evaluated on every implementation line.")
+
 NOTES = ("Technique family: machine-checked proof in Lean 4. Every check = (1) facts regenerated from /repo + lake build of the "
          "property's theorem module + axiom audit, (2) correspondence: implementation (built from /repo, -tags verif) vs the "
          "model's executable definitions on the same inputs, (3) the specification evaluated on the implementation's results "
@@ -41,6 +45,45 @@ CLAIMS["C06"] = {
     "note": "Trusted: as C05. The stream-level consequence of an overrun (that RPC fails with ResourceExhausted, others continue) belongs to the "
             "L-frame endpoint model (C09/C03 checks).",
     "technique": "Lean 4 invariant proofs (all schedules; all hostile operation sequences) + differential correspondence",
+}
+
+CLAIMS["C08"] = {
+    "text": "Server side: theorems over the L-frame server endpoint model for EVERY stimulus list (arbitrary frames from any peer, handler calls, ticks): "
+            "ids of created streams are pairwise strictly increasing and bounded by lastSeen (C08_ids_increasing: each id accepted at most once), reused/active ids "
+            "end the tunnel (C08_refuse_reused), frames for never-created ids end the tunnel (C08_never_created), frames for finished ids change nothing "
+            "(C08_ignore_finished), and dispatch picks exactly the descriptor named after the first slash, unary before stream (C08_dispatch). " + _SRV +
+            " Client-side id allocation under the streamCreation lock is covered by the W1/IdAlloc work listed in DESIGN.md (not yet part of this check).",
+    "design_ref": "DESIGN.md 6 (C08)",
+    "note": "Trusted: Lean kernel, S-world harness and differ, quiescence granularity (L-frame). Not yet covered here: concurrent newStream interleavings on the client.",
+    "technique": "Lean 4 invariant over all stimulus lists of an endpoint model + step-exact correspondence with the real server",
+}
+CLAIMS["C09"] = {
+    "text": "Server endpoint: the model is a total function of every frame in every state; theorems: tunnel-level errors are exactly the three id violations "
+            "(C09_tunnel_errors_are_id_violations), a stream-level frame never touches other streams or tunnel state (C09_stream_frame_local), window overrun / unset "
+            "frame finish only that stream with the documented status (C09_overrun_fails_stream, C09_unset_fails_stream, C09_finish_emits_close, C09_finish_once), "
+            "absurd window updates wrap inside uint32, zero updates are ignored, and when serve returns every stream context is cancelled (C09_released); bounded "
+            "buffering is C06_receiver_bounded. " + _SRV + " Hostile families recover panics in the receive loop and report them.",
+    "design_ref": "DESIGN.md 6 (C09)",
+    "note": "Trusted: as C08. Go panics are outside the model (checked by the hostile families only). Client endpoint against a raw server: pending (C-world).",
+    "technique": "Lean 4 theorems over all states x all frames of a total endpoint model + hostile-peer correspondence",
+}
+CLAIMS["C10"] = {
+    "text": "Tunnel level: while closing, a fresh new_stream yields exactly one close(Unavailable), no handler, unchanged table, tunnel up, id recorded (C10_refused, "
+            "C10_refused_state); later frames of the refused RPC are ignored (C10_later_frames_ignored); every stimulus other than new_stream behaves identically "
+            "whatever the flag (C10_flag_only_read_by_new_stream) so in-flight RPCs keep their outcome. " + _SRV +
+            " Lifecycle part (GracefulStop/Stop/Serve) is pending (W2).",
+    "design_ref": "DESIGN.md 6 (C10)",
+    "note": "Trusted: as C08. GracefulStop/Stop ordering is not yet modelled in this check.",
+    "technique": "Lean 4 theorems over the endpoint model + step-exact correspondence incl. shutdown-flag stimuli",
+}
+CLAIMS["C16"] = {
+    "text": "Server side: a second SendMsg on a non-streaming response side is refused with Internal and emits no data (C16_second_send_refused); read errors "
+            "incl. the end-of-requests marker are sticky (C16_recv_after_eof, C16_recv_sticky). The look-ahead that turns a second request into InvalidArgument is part "
+            "of the model (resumeRead) and is exercised by raw-client scenarios with 0/1/2/many request messages in all chunkings. " + _SRV +
+            " Caller side (Invoke's extra RecvMsg, client look-ahead) pending (C-world).",
+    "design_ref": "DESIGN.md 6 (C16)",
+    "note": "Trusted: as C08. The unbounded statement 'at most one request is ever delivered' is checked by the monitor on implementation traces; its Lean proof over resumeRead is in progress.",
+    "technique": "Lean 4 theorems over the endpoint model + raw-client correspondence",
 }
 
 NOT_CLAIMED = {}
